@@ -67,6 +67,9 @@ func (impl) Gen(h *vh.H, i int) string {
 		if h.Chance(1, 2) {
 			return "match " + vh.Hex(genString(h))
 		}
+		if h.Chance(1, 2) {
+			return genHashPair(h)
+		}
 		n := h.Rng.IntN(4)
 		parts := make([]string, 0, n+1)
 		var all []byte
@@ -79,6 +82,63 @@ func (impl) Gen(h *vh.H, i int) string {
 		sum := sha1.Sum(all)
 		return "hash " + vh.Hex(sum[:]) + " " + strings.Join(parts, " ")
 	}
+}
+
+// genHashPair: two argument lists that a sloppy cache key / separator-joining implementation
+// would confuse (same concatenation split differently, or parts joined by a separator), called
+// A, B, A in one process. Purity means each call equals the hash of its own byte stream.
+func genHashPair(h *vh.H) string {
+	word := func() []byte {
+		n := h.Rng.IntN(6)
+		b := make([]byte, n)
+		for i := range b {
+			b[i] = vh.Pick(h, []byte("abcxyz019"))
+		}
+		return b
+	}
+	n := 1 + h.Rng.IntN(3)
+	a := [][]byte{word()}
+	for k := 0; k < n; k++ {
+		a = append(a, word())
+	}
+	var b [][]byte
+	if h.Chance(1, 2) {
+		// join two adjacent inputs of A with a separator-like byte
+		sep := vh.Pick(h, []byte("/:|,\x00 -_.;+"))
+		k := 1 + h.Rng.IntN(len(a)-1)
+		for i, p := range a {
+			if i == k && i+1 < len(a) {
+				continue
+			}
+			b = append(b, p)
+		}
+		if k+1 < len(a) {
+			b[k] = append(append(append([]byte{}, a[k]...), sep), a[k+1]...)
+			b = append(b[:k+1], a[k+2:]...)
+		} else {
+			// join namespace and first input instead
+			b = append([][]byte{append(append(append([]byte{}, a[0]...), sep), a[1]...)}, a[2:]...)
+		}
+	} else {
+		// same byte stream, different split
+		all := bytes.Join(a, nil)
+		cut := 0
+		if len(all) > 0 {
+			cut = h.Rng.IntN(len(all) + 1)
+		}
+		b = [][]byte{all[:cut], all[cut:]}
+	}
+	enc := func(ps [][]byte) (string, string) {
+		sum := sha1.Sum(bytes.Join(ps, nil))
+		hs := make([]string, len(ps))
+		for i, p := range ps {
+			hs[i] = vh.Hex(p)
+		}
+		return vh.Hex(sum[:]), strings.Join(hs, " ")
+	}
+	da, sa := enc(a)
+	db, sb := enc(b)
+	return fmt.Sprintf("hashpair %s %s %d %s %s", da, db, len(a), sa, sb)
 }
 
 func genString(h *vh.H) []byte {
@@ -187,6 +247,36 @@ func (impl) Exec(h *vh.H, op string) string {
 		}
 		h.Count("match")
 		return fmt.Sprint(id62.Pattern.Match(b))
+	case "hashpair":
+		var na int
+		fmt.Sscan(f[3], &na)
+		var ps [][]byte
+		for _, x := range f[4:] {
+			b, ok := vh.UnHex(x)
+			if !ok {
+				return "bad-op"
+			}
+			ps = append(ps, b)
+		}
+		if na < 1 || na > len(ps)-1 {
+			return "bad-op"
+		}
+		call := func(p [][]byte) id62.UUID {
+			ins := make([]string, 0, len(p))
+			for _, x := range p[1:] {
+				ins = append(ins, string(x))
+			}
+			return id62.NewHash(string(p[0]), ins...)
+		}
+		a, b := ps[:na], ps[na:]
+		r1, r2, r3 := call(a), call(b), call(a)
+		sa, sb := sha1.Sum(bytes.Join(a, nil)), sha1.Sum(bytes.Join(b, nil))
+		if !bytes.Equal(r1[:], sa[:16]) || !bytes.Equal(r2[:], sb[:16]) || r3 != r1 {
+			h.Fail("hash-impure", op, fmt.Sprintf("A=%x B=%x A'=%x want A=%x B=%x", r1, r2, r3, sa[:16], sb[:16]))
+		}
+		h.Count("hashpair")
+		h.Nontrivial(op)
+		return "ok " + vh.Hex(r1[:]) + " " + vh.Hex(r2[:]) + " " + vh.Hex(r3[:])
 	case "hash":
 		var parts [][]byte
 		for _, x := range f[2:] {
